@@ -21,4 +21,18 @@ extern "C" void osmium_verif_sched_point(const char* tag);
 # define OSMIUM_VERIF_SCHED_POINT(tag)
 #endif
 
+/*
+
+With OSMIUM_VERIF_DYNAMIC_BUFFER_SIZE defined, the initial capacity of the
+buffers the parsers build their objects in is obtained at run time from
+osmium_verif_dynamic_buffer_size(compiled_in_size), which must be supplied by
+the program (so one executable can run the parsers with every capacity).
+
+*/
+
+#ifdef OSMIUM_VERIF_DYNAMIC_BUFFER_SIZE
+# include <cstddef>
+extern "C" std::size_t osmium_verif_dynamic_buffer_size(std::size_t compiled_in_size);
+#endif
+
 #endif // OSMIUM_UTIL_VERIF_HOOKS_HPP
